@@ -48,7 +48,7 @@ func parseNumericConst(s string) (constant, reflect.Type, error) {
 		}
 		return newComplexConst(re, im), complex128Type, nil
 	}
-	if strings.ContainsAny(s, "/.") {
+	if strings.ContainsAny(s, "/.pP") || !strings.ContainsAny(s, "xX") && strings.ContainsAny(s, "eE") {
 		n, err := parseBasicLiteral(ast.FloatLiteral, s)
 		if err != nil {
 			return nil, nil, err
